@@ -89,7 +89,7 @@ class Interp:
         self.steps = 0
 
     # -------------------------------------------------------------- exploration
-    def explore(self, fn, args):
+    def explore(self, fn, args, stop_on_ok=False):
         """all outcomes of calling fn (a constructor / function Fn) with concrete args.
         returns set of 'ok' / 'throw@file:line'."""
         outcomes = set()
@@ -105,6 +105,8 @@ class Interp:
             try:
                 self.call(fn, args, 0, {})
                 outcomes.add('ok')
+                if stop_on_ok:
+                    break
             except Throw as t:
                 outcomes.add('throw@' + t.where)
             except Budget:
